@@ -21,6 +21,8 @@ pub enum Case {
     Vdaf { cfg: VdafCfg, ctx: Hex, key_seed: u64, nonce_seed: u64, rand_seed: u64, meas: Meas, threads: usize, reps: usize, contended: bool },
     /// gadget level: eval_poly / eval of the two gadgets on arbitrary wire polynomials
     Gadget { f128: bool, calls: usize, chunks: usize, seed: u64, threads: usize },
+    /// the shipped convenience constructors: `Prio3::new_<type>_multithreaded` against `new_<type>`
+    Ctor { kind: u8, n_agg: u8, len: usize, chunk: usize, p: u64, seed: u64, threads: usize },
 }
 
 /// Everything observable of one honest execution, as bytes.
@@ -137,7 +139,7 @@ impl Check for C14 {
     type Case = Case;
     const ID: &'static str = "C14";
     fn rule(&self) -> String {
-        "proptest-generated: type ∈ {SumVec, Histogram, MultihotCountVec} over both fields with chunk counts of 1, fewer than, around and far above the pool size; measurement, nonce, randomness; a per-case rayon pool of 1..32 threads, 1..8 repetitions, optionally run concurrently on the same pool to perturb work stealing. Oracle (differential): encoded public share, every input share, every verifier share, verifier message, output shares and the result of the ParallelSumMultithreaded instantiation equal those of the serial ParallelSum instantiation byte for byte; at gadget level eval_poly/eval of the two gadgets agree on arbitrary wire polynomials with dirty output buffers. Non-trivial = pool size ≥ 2 and ≥ 2 chunks; distinct by case hash. Limit: pool size, load and repetition are controlled, rayon's stealing decisions are not enumerated".into()
+        "proptest-generated: type ∈ {SumVec, Histogram, MultihotCountVec} over both fields with chunk counts of 1, fewer than, around and far above the pool size; measurement, nonce, randomness; a per-case rayon pool of 1..32 threads, 1..8 repetitions, optionally run concurrently on the same pool to perturb work stealing. Oracle (differential): encoded public share, every input share, every verifier share, verifier message, output shares and the result of the ParallelSumMultithreaded instantiation equal those of the serial ParallelSum instantiation byte for byte; at gadget level eval_poly/eval of the two gadgets agree on arbitrary wire polynomials with dirty output buffers; the shipped constructors Prio3::new_{sum_vec,histogram,multihot_count_vec}_multithreaded give the same transcript as their serial counterparts. Non-trivial = pool size ≥ 2 and ≥ 2 chunks; distinct by case hash. Limit: pool size, load and repetition are controlled, rayon's stealing decisions are not enumerated".into()
     }
     fn assumptions(&self) -> Vec<String> {
         vec!["schedules are perturbed (pool size × chunk count × contention × repetition), not enumerated; a violation needs a structural defect (non-zero fold identity, dropped chunk, stale partial buffer), which shows for every schedule or as soon as a worker takes ≠ 1 chunks".into()]
@@ -160,7 +162,9 @@ impl Check for C14 {
                 Case::Vdaf { cfg, ctx, key_seed, nonce_seed, rand_seed, meas, threads, reps, contended }
             });
         let gd = (any::<bool>(), prop_oneof![Just(1usize), 1usize..=40], prop_oneof![Just(1usize), 1usize..=70], any::<u64>(), 1usize..=32).prop_map(|(f128, calls, chunks, seed, threads)| Case::Gadget { f128, calls, chunks, seed, threads });
-        prop_oneof![3 => vd, 2 => gd].boxed()
+        let maxlen = tier.pick(300usize, 3000);
+        let ct = (any::<u8>(), 2u8..=4, 1usize..=maxlen, prop_oneof![Just(1usize), 1usize..=40, 41usize..=400], any::<u64>(), any::<u64>(), 1usize..=32).prop_map(|(kind, n_agg, len, chunk, p, seed, threads)| Case::Ctor { kind, n_agg, len, chunk, p, seed, threads });
+        prop_oneof![3 => vd, 2 => gd, 1 => ct].boxed()
     }
     fn num_cases(&self, tier: Tier) -> u64 {
         tier.pick(1500, 40_000)
@@ -235,6 +239,62 @@ impl Check for C14 {
                             break;
                         }
                     }
+                }
+            }
+            Case::Ctor { kind, n_agg, len, chunk, p, seed, threads } => {
+                use prio::flp::types::{Histogram, MultihotCountVec, SumVec};
+                type Ser = ParallelSum<Field128, Mul>;
+                let (len, chunk, n_agg) = ((*len).max(1), (*chunk).max(1), (*n_agg).max(2));
+                let inst = match kind % 3 {
+                    0 => Inst::SumVec { f: FieldKind::F128, max: U(1 + (*p % 1000) as u128), len, chunk, mt: false },
+                    1 => Inst::Histogram { f: FieldKind::F128, len, chunk, mt: false },
+                    _ => Inst::Multihot { f: FieldKind::F128, len, max_weight: 1 + (*p as usize) % len, chunk, mt: false },
+                };
+                obs.label(format!("ctor:{}", inst.name()));
+                if *threads >= 2 && chunk >= 2 {
+                    obs.nt();
+                }
+                let cfg = VdafCfg { alg_id: inst.default_alg_id(), inst: inst.clone(), xof: XofKind::Turbo, n_agg, n_proofs: 1 };
+                let meas = meas_from(&inst, (*seed % 7) as u8, *seed);
+                let ctxb = b"ctor".to_vec();
+                macro_rules! col {
+                    ($vdaf:expr, $typ:expr) => {
+                        match ($vdaf, $typ) {
+                            (Ok(v), Ok(t)) => Collect { ctx: &ctxb, key_seed: seed ^ 1, nonce_seed: seed ^ 2, rand_seed: seed ^ 3, meas: &meas, cfg: &cfg }.visit(v, t),
+                            (Err(e), _) => Err(format!("constructor: {e}")),
+                            (_, Err(e)) => Err(format!("type constructor: {e}")),
+                        }
+                    };
+                }
+                let pool = match rayon::ThreadPoolBuilder::new().num_threads(*threads).build() {
+                    Ok(p) => p,
+                    Err(_) => return obs.finish(),
+                };
+                let r = guard(|| match &inst {
+                    Inst::SumVec { max, .. } => (
+                        col!(Prio3::new_sum_vec(n_agg, max.0, len, chunk), SumVec::<Field128, Ser>::new(max.0, len, chunk)),
+                        pool.install(|| col!(Prio3::new_sum_vec_multithreaded(n_agg, max.0, len, chunk), SumVec::<Field128, ParallelSumMultithreaded<Field128, Mul>>::new(max.0, len, chunk))),
+                    ),
+                    Inst::Histogram { .. } => (
+                        col!(Prio3::new_histogram(n_agg, len, chunk), Histogram::<Field128, Ser>::new(len, chunk)),
+                        pool.install(|| col!(Prio3::new_histogram_multithreaded(n_agg, len, chunk), Histogram::<Field128, ParallelSumMultithreaded<Field128, Mul>>::new(len, chunk))),
+                    ),
+                    Inst::Multihot { max_weight, .. } => (
+                        col!(Prio3::new_multihot_count_vec(n_agg, len, *max_weight, chunk), MultihotCountVec::<Field128, Ser>::new(len, *max_weight, chunk)),
+                        pool.install(|| col!(Prio3::new_multihot_count_vec_multithreaded(n_agg, len, *max_weight, chunk), MultihotCountVec::<Field128, ParallelSumMultithreaded<Field128, Mul>>::new(len, *max_weight, chunk))),
+                    ),
+                    _ => unreachable!(),
+                });
+                match r {
+                    Ok((Ok(a), Ok(b))) => {
+                        if a != b {
+                            let i = a.iter().zip(&b).position(|(x, y)| x != y).unwrap_or(0);
+                            obs.fail("shipped-multithreaded-constructor-differs", format!("{}: item {i} of the transcript of Prio3::new_*_multithreaded differs from the serial constructor's (0 = public share, then input shares, verifier shares, message, output shares, result)", inst.name()));
+                        }
+                    }
+                    Ok((Err(_), Err(_))) => obs.label("ctor:both-refuse"),
+                    Ok((a, b)) => obs.fail("shipped-constructors-disagree", format!("{}: serial constructor/execution gives {:?}, multithreaded {:?}", inst.name(), a.map(|_| "ok"), b.map(|_| "ok"))),
+                    Err(pn) => obs.fail(format!("ctor-{}", panic_sig(&pn)), format!("shipped constructor execution panicked: {pn}")),
                 }
             }
             Case::Gadget { f128, calls, chunks, seed, threads } => {
